@@ -713,6 +713,108 @@ func runC12(r *Run) {
 		}
 		r.check(okDel && n >= 1, "C12.R5", "SealRound|closed-not-deleted", v.pos(v.Decl), "a sealed round is deleted only when its feeder expired; otherwise it is marked closed", "SealRound deletes a round under a condition other than the feeder's expiry (or does not mark the others closed): the round is re-created open in the same block and closed twice")
 	}
+	// a round that closes without a price drops its worker and reports its feeder as sealed, unconditionally; a
+	// new round starts without the previous round's worker; the calculator sees only what the filter let through;
+	// a final price closes the round at once
+	if v := w.View("x/oracle/keeper/aggregator", "AggregatorContext.SealRound"); v != nil {
+		var failBlk *ast.BlockStmt
+		ast.Inspect(v.Decl.Body, func(n ast.Node) bool {
+			as, ok := n.(*ast.AssignStmt)
+			if ok && len(as.Lhs) == 1 && len(as.Rhs) == 1 {
+				if c, isC := stripParens(as.Rhs[0]).(*ast.CallExpr); isC && exprString(c.Fun) == "append" && len(c.Args) == 2 && lastField(c.Args[1]) == "TokenID" {
+					failBlk = v.innermostBlock(as)
+				}
+			}
+			return true
+		})
+		okDrop, okSealed := false, false
+		if failBlk != nil {
+			for _, st := range failBlk.List {
+				if es, isE := st.(*ast.ExprStmt); isE {
+					if c, isC := es.X.(*ast.CallExpr); isC && exprString(c.Fun) == "delete" && len(c.Args) == 2 && lastField(c.Args[0]) == "aggregators" {
+						okDrop = true
+					}
+				}
+				if as, isAs := st.(*ast.AssignStmt); isAs && len(as.Lhs) == 1 && len(as.Rhs) == 1 {
+					if c, isC := stripParens(as.Rhs[0]).(*ast.CallExpr); isC && exprString(c.Fun) == "append" && len(c.Args) == 2 && sameExpr(c.Args[0], as.Lhs[0]) && lastField(c.Args[1]) != "TokenID" {
+						okSealed = true
+					}
+				}
+			}
+		}
+		r.check(okDrop, "C12.R5", "SealRound|failed-round-drops-worker", v.pos(v.Decl), "a round that closes without a price drops its worker (reports, filter, calculator) in the same step, whatever the reason", "SealRound keeps the worker of a round it closes without a price (or drops it only conditionally): the next round of the feeder starts with the previous round's reports and power")
+		r.check(okSealed, "C12.R5", "SealRound|failed-round-is-sealed", v.pos(v.Decl), "a round that closes without a price is always reported as sealed (its nonce records are removed by EndBlock)", "SealRound reports a failed round as sealed only conditionally: a round nobody submitted to keeps its nonce records, and the ante handler goes on admitting fee-less transactions for the closed round")
+	}
+	if v := w.View("x/oracle/keeper/aggregator", "AggregatorContext.PrepareRoundEndBlock"); v != nil {
+		ok := false
+		ast.Inspect(v.Decl.Body, func(n ast.Node) bool {
+			as, isAs := n.(*ast.AssignStmt)
+			if !isAs || len(as.Lhs) != 1 || len(as.Rhs) != 1 {
+				return true
+			}
+			c, isC := stripParens(as.Rhs[0]).(*ast.CallExpr)
+			if !isC || exprString(c.Fun) != "append" || !sameExpr(c.Args[0], as.Lhs[0]) || v.innermostLoop(as) == nil {
+				return true
+			}
+			// the arm that announces a new round
+			if blk := v.innermostBlock(as); blk != nil {
+				for _, st := range blk.List {
+					if es, isE := st.(*ast.ExprStmt); isE {
+						if dc, isD := es.X.(*ast.CallExpr); isD && exprString(dc.Fun) == "delete" && len(dc.Args) == 2 && lastField(dc.Args[0]) == "aggregators" {
+							ok = true
+						}
+					}
+				}
+			}
+			return true
+		})
+		r.check(ok, "C12.R5", "PrepareRound|new-round-without-old-worker", v.pos(v.Decl), "a new round starts without the previous round's worker", "PrepareRoundEndBlock announces a new round without deleting the feeder's previous worker")
+	}
+	if v := w.View("x/oracle/keeper/aggregator", "worker.do"); v != nil {
+		var fc, fa types.Object
+		for _, c := range v.CallsNamed("filtrate") {
+			if as, isAs := v.parent(c).(*ast.AssignStmt); isAs && len(as.Lhs) == 2 {
+				fc, fa = v.objOf(as.Lhs[0]), v.objOf(as.Lhs[1])
+			}
+		}
+		okC, okA := false, false
+		for _, c := range v.CallsNamed("fillPrice") {
+			if len(c.Args) != 3 {
+				continue
+			}
+			recv := exprString(c.Fun)
+			if strings.Contains(recv, ".c.") && fc != nil && v.objOf(c.Args[0]) == fc {
+				okC = true
+			}
+			if strings.Contains(recv, ".a.") && fa != nil && v.objOf(c.Args[0]) == fa {
+				okA = true
+			}
+		}
+		r.check(okC && okA, "C12.R3", "worker|filtered-lists", v.pos(v.Decl), "the calculator and the aggregator are fed the lists the filter returned for them (a repeated source round is dropped before it can add power again)", "worker.do does not hand the filter's calculator list to the calculator and its aggregator list to the aggregator: an already reported (source round, value) adds the validator's power again")
+	}
+	if v := w.View("x/oracle/keeper/aggregator", "AggregatorContext.FillPrice"); v != nil {
+		ok := false
+		for _, c := range v.CallsNamed("seal") {
+			blk := v.innermostBlock(c)
+			if blk == nil {
+				continue
+			}
+			for _, st := range blk.List {
+				if as, isAs := st.(*ast.AssignStmt); isAs && st.Pos() < c.Pos() && len(as.Lhs) == 1 && lastField(as.Lhs[0]) == "status" && strings.Contains(exprString(as.Rhs[0]), "Closed") {
+					final := false
+					for _, f := range v.FactsAt(as, false) {
+						if cm, isC := factCmp(f); isC && cm.Op == "!=" && isNilIdent(v.Info, cm.R) && resolvesToCallV(v, cm.L, "aggregate") {
+							final = true
+						}
+					}
+					if final {
+						ok = true
+					}
+				}
+			}
+		}
+		r.check(ok, "C12.R3", "FillPrice|final-price-closes-round", v.pos(v.Decl), "the submission that yields the final price closes the round in the same step (it cannot be closed again by SealRound's failure arm)", "FillPrice does not set the round's status to closed when the final price is found: a price found in the last block of the window, or in a block with a validator-set change, is followed by a second closing of the same round through the failed list")
+	}
 	// the aggregator is given the full validator set read back from the cache, not the update delta
 	if v := w.View("x/oracle", "AppModule.EndBlock"); v != nil {
 		ok, n := true, 0
